@@ -103,7 +103,7 @@ def oracle(line, impl_line):
         return "implementation crashed"
     if mode != "str_run":
         return None
-    if [888888] in o:
+    if [18446744073710440504] in o:
         return "implementation panicked on a legal schedule"
     wire, ops = a[2], a[3:]
     recs, _ = parse_records(wire)
